@@ -240,9 +240,9 @@ func enumerate(alpha []string, maxLen int, f func(string)) int {
 func harvest() []string {
 	seen := map[string]bool{}
 	var out []string
-	files, _ := filepath.Glob("/repo/pkg/*/*/*_test.go")
-	more, _ := filepath.Glob("/repo/pkg/*/*_test.go")
-	cmdf, _ := filepath.Glob("/repo/cmd/*_test.go")
+	files, _ := filepath.Glob(repoRoot() + "/pkg/*/*/*_test.go")
+	more, _ := filepath.Glob(repoRoot() + "/pkg/*/*_test.go")
+	cmdf, _ := filepath.Glob(repoRoot() + "/cmd/*_test.go")
 	files = append(append(files, more...), cmdf...)
 	sort.Strings(files)
 	for _, file := range files {
